@@ -38,21 +38,27 @@ def rule_json(ctx):
     ctx.require('R1', rets, 'to_jsondict has no returning path')
     written = {}
     meta_term = None
+    per_alt = []
     for p in rets:
-        v = p.value
+      for v in T.value_alts(p.value):
+        one = {}
         base = v
         while base[0] in ('setitem', 'mut'):
             if base[0] == 'setitem' and base[2][0] == 'const':
-                written[base[2][1]] = base[3]
+                one.setdefault(base[2][1], base[3])          # (the latest store of a key is the outermost one)
             base = base[1]
         if base[0] == 'call' and T.dotted(base[1]) == 'dict' and base[2] and base[2][0][0] == 'list':
             for it in base[2][0][1]:
                 if it[0] == 'tuple' and len(it[1]) == 2 and it[1][0][0] == 'const':
-                    written.setdefault(it[1][0][1], it[1][1])
+                    one.setdefault(it[1][0][1], it[1][1])
         elif base[0] == 'dict':
             for k, x in base[1]:
                 if k[0] == 'const':
-                    written.setdefault(k[1], x)
+                    one.setdefault(k[1], x)
+        per_alt.append(one)
+    for one in per_alt:
+        for k, x in one.items():
+            written[k] = T.mkphi([written[k], x]) if k in written else x
     want = {
         'values': ('call', ('attr', ('attr', SELF, 'values'), 'tolist'), (), ()),
         'dims': ('call', ('name', 'list'), (('attr', SELF, 'dims'),), ()),
@@ -74,7 +80,7 @@ def rule_json(ctx):
     if meta is None:
         ctx.violated('R1', w, "'meta' missing", "to_jsondict must write the metadata under 'meta'")
     else:
-        roots = [x for x in T.strip_phi(meta)]
+        roots = [x for x in T.value_alts(meta)]
         base_ok = True
         vals = []
         for alt in roots:
@@ -99,11 +105,32 @@ def rule_json(ctx):
                          'class member / axis labels when the key collides with one')
         else:
             ctx.violated('R1', w, "'meta' content", 'no metadata entry is ever written')
+    # the probe `json.dumps(val)` that decides whether an entry can be written protects one entry: a try statement that encloses the whole loop over the
+    # entries ends the loop at the first entry json cannot encode, and every later (representable) entry is left out as well
+    import ast
+    from ..rules import helper_nodes
+    nprobe = 0
+    for f_ in helper_nodes(ctx, w):
+        for t in ast.walk(f_.node):
+            if not isinstance(t, ast.Try) or not t.handlers:
+                continue
+            for loop in [n for b in t.body for n in ast.walk(b) if isinstance(n, (ast.For, ast.While))]:
+                probes = [n for b in loop.body for n in ast.walk(b) if isinstance(n, ast.Call) and ast.unparse(n.func).endswith('dumps')]
+                if probes:
+                    ctx.violated('R1', f_, probes[0], 'the try statement that catches an entry json cannot encode encloses the whole loop over the metadata entries: the first such '
+                                 'entry ends the loop and all the entries after it are silently left out of the JSON form (the probe must be guarded entry by entry)', node=t)
+        for loop in [n for n in ast.walk(f_.node) if isinstance(n, (ast.For, ast.While))]:
+            for t in [n for b in loop.body for n in ast.walk(b) if isinstance(n, ast.Try) and n.handlers]:
+                if any(isinstance(n, ast.Call) and ast.unparse(n.func).endswith('dumps') for b in t.body for n in ast.walk(b)):
+                    nprobe += 1
+    if nprobe:
+        ctx.holds('R1', 'writer: the json.dumps probe is guarded entry by entry (try inside the loop)')
     # reader
     r = ctx.fn(D + 'from_jsondict')
     JD = P_('jsondict')
     ev = run(ctx, r, mode='join')
     okr = False
+    n_without_meta = 0
     for p in ret_paths(ev):
         ctor = [e.a for e in p.calls() if e.a[1] == P_('cls')]
         if len(ctor) != 1:
@@ -120,7 +147,7 @@ def rule_json(ctx):
             """every alternative of t is the entry `key` of the dict, possibly reshaped / converted (np.reshape, np.asarray, np.array)"""
             if t is None:
                 return False
-            for alt in T.strip_phi(t):
+            for alt in T.value_alts(t):
                 x = alt
                 while x[0] == 'call' and (T.dotted(x[1]) or '') in ('np.reshape', 'np.asarray', 'np.array') and x[2]:
                     x = x[2][0]
@@ -140,7 +167,11 @@ def rule_json(ctx):
                          "argument (attrs['dtype']='int16' casts the data on read-back); restore it with _metadata(meta) after construction", node=p.node)
             continue
         md = [e.a for e in p.calls('_metadata')] + [e.a for e in p.calls('update') if 'attrs' in T.show(e.a[1])]
-        if not any(T.contains(x, const('meta')) and T.contains(x, JD) and T.contains(x[1], c) for x in md):
+        no_meta = any(a[0] == 'tryfail' for a, pol in p.guards) or \
+            any(a[0] == 'cmp' and a[1] == 'in' and a[2] == const('meta') and pol is False for a, pol in p.guards)
+        if not any(T.contains(x, const('meta')) and T.contains(x, JD) and T.contains(x[1], c) for x in md) and no_meta and len(ret_paths(ev)) > 1:
+            n_without_meta += 1          # the path of a dictionary without a 'meta' entry (early return): nothing to restore there
+        elif not any(T.contains(x, const('meta')) and T.contains(x, JD) and T.contains(x[1], c) for x in md):
             ctx.violated('R1', r, 'meta', "from_jsondict must restore the metadata onto the array it built: dima._metadata(jsondict['meta'])", node=p.node)
             continue
         if p.value != c and not (p.value[0] in ('mut',) and p.value[1] == c):
